@@ -7,7 +7,7 @@ from ..oracle import equiv
 LEVEL = "model_checking"
 
 
-def judge(s, node, cname, result, error):
+def judge(s, node, cname, result, error, nb=None):
     """[(core, detail)] for one executed transition."""
     if error is not None or result is None:
         return []  # raising / empty results are judged by C06
@@ -20,13 +20,13 @@ def judge(s, node, cname, result, error):
     vd = equiv.same_function(s, rs)
     if vd.same:
         return [("", vd)]
-    core = f"{cname}|value-changed|{RW.neighbourhood(node)}"
+    core = f"{cname}|value-changed|{nb or RW.neighbourhood(node)}"
     return [(core, f"{SG.show(s)}  ->  {SG.show(rs)}  differ at {vd.witness}")]
 
 
 class V(steps.Visitor):
     def on_transition(self, acc, ctx, root, s, cname, rule, index, node, result, change, error):
-        for core, detail in judge(s, node, cname, result, error):
+        for core, detail in judge(s, node, cname, result, error, ctx.get("nb")):
             if core == "":
                 vd = detail
                 acc.count("decided" if vd.decided else "tested_only")
@@ -34,7 +34,7 @@ class V(steps.Visitor):
                 if vd.common == 0:
                     acc.count("no_common_domain")
                 continue
-            case = {"text": ctx["text"], "trace": ctx["trace"], "cfg": cname, "index": index}
+            case = {"text": ctx["text"], "trace": ctx["trace"], "cfg": cname, "index": index, "inplace": ctx.get("inplace", False)}
             acc.violation(core, case, detail)
         if acc.n["transitions"] % 5000 == 1:
             acc.sample({"start": ctx["text"], "trace": ctx["trace"] + [[cname, index]]})
@@ -44,12 +44,17 @@ def run(tier, seed):
     texts, heavy = steps.start_texts(tier, "expr")
     depth = 1 if tier == "quick" else 2
     acc = steps.run(V, texts, depth, "expr", seed, heavy)
+    small = steps.small_texts("expr") if tier == "quick" else texts[heavy:][::3]
+    if tier == "quick":
+        acc.merge(steps.run(V, small, 2, "expr", seed, 0, key="small"))  # clone mode, closure depth 2
+    acc.merge(steps.run(V, small, "inplace", "expr", seed, 0, key="small"))  # live-tree mode, 2 steps
     cov = {
         "states": len(acc.keys),
         "transitions": acc.n["transitions"],
         "traces_validated_against_impl": acc.n["transitions"],
         "exhaustive": True,
-        "bound": {"start_texts": acc.n["start_texts"], "closure_depth": depth},
+        "bound": {"start_texts": len(texts), "closure_depth": depth, "depth2_and_inplace_start_texts": len(small)},
+        "inplace_transitions": acc.n["inplace_transitions"],
         "decided_by_degree_bound": acc.n["decided"],
         "tested_only": acc.n["tested_only"],
         "per_config": {k[8:]: v for k, v in sorted(acc.n.items()) if k.startswith("applied:")},
@@ -63,6 +68,23 @@ def run(tier, seed):
     ]
 
 
+def _replay_direct(case):
+    cur, s, cname, rule, index, node, result, change, error, nb = steps.replay_last(case)
+    return [(c, d) for c, d in judge(s, node, cname, result, error, nb) if c]
+
+
 def replay(case):
-    cur, s, cname, rule, index, node, result, change, error = steps.replay_last(case)
-    return [(c, d) for c, d in judge(s, node, cname, result, error) if c]
+    """direct replay of the recorded trace; if the recorded violation depends on state that rule objects
+    carried over from the exploration of the same seed, fall back to re-exploring that seed from fresh
+    rule objects (deterministic: rule objects are reset per seed)"""
+    want = case.get("_core")
+    try:
+        got = _replay_direct(case)
+    except Exception:  # noqa
+        got = []
+    if got and (want is None or any(c == want for c, _ in got)):
+        return got
+    again = steps.reexplore(case, V)
+    if want is not None and any(c == want for c, _ in again):
+        return [(c, d) for c, d in again if c == want]
+    return again or got
